@@ -14,6 +14,7 @@ global size_of usize == 8;
 //@end
 impl WordInfo {
 //@extract sudachi/src/dic/lexicon/word_infos.rs :: impl From<WordInfoData> for WordInfo :: fn from
+//@  twin
 //@  ret r
 //@  spec
         ensures r.data == data
@@ -22,6 +23,7 @@ impl WordInfo {
 impl WordInfoData {
 // R11: From<WordInfo> for WordInfoData as an inherent fn
 //@extract sudachi/src/dic/lexicon/word_infos.rs :: impl From<WordInfo> for WordInfoData :: fn from
+//@  twin
 //@  ret r
 //@  spec
         ensures r == info.data
